@@ -15,6 +15,7 @@ import (
 	"reflect"
 	"runtime"
 	"slices"
+	"sync"
 	"time"
 
 	"github.com/btcsuite/btcd/btcec/v2"
@@ -66,6 +67,11 @@ type Mint struct {
 	publisher *pubsub.PubSub
 	ctx       context.Context
 	cancel    context.CancelFunc
+
+	// mintQuoteMu serializes the read-check-write sequences on the state of mint quotes
+	// (state checks, minting and the invoice subscription). Without it two concurrent
+	// requests could both see a quote as PAID and both get signatures for one payment.
+	mintQuoteMu *sync.Mutex
 }
 
 func LoadMint(config Config) (*Mint, error) {
@@ -119,6 +125,8 @@ func LoadMint(config Config) (*Mint, error) {
 		publisher:  pubsub.NewPubSub(),
 		ctx:        ctx,
 		cancel:     cancel,
+
+		mintQuoteMu: &sync.Mutex{},
 	}
 
 	// if no keysets stored, just create a new one
@@ -328,6 +336,13 @@ func (m *Mint) RequestMintQuote(mintQuoteRequest nut04.PostMintQuoteBolt11Reques
 
 // GetMintQuoteState returns the state of a mint quote.
 func (m *Mint) GetMintQuoteState(quoteId string) (storage.MintQuote, error) {
+	m.mintQuoteMu.Lock()
+	defer m.mintQuoteMu.Unlock()
+	return m.getMintQuoteState(quoteId)
+}
+
+// getMintQuoteState must be called with mintQuoteMu held
+func (m *Mint) getMintQuoteState(quoteId string) (storage.MintQuote, error) {
 	mintQuote, err := m.db.GetMintQuote(quoteId)
 	if err != nil {
 		return storage.MintQuote{}, cashu.QuoteNotExistErr
@@ -362,7 +377,10 @@ func (m *Mint) GetMintQuoteState(quoteId string) (storage.MintQuote, error) {
 // MintTokens verifies whether the mint quote with id has been paid and proceeds to
 // sign the blindedMessages and return the BlindedSignatures if it was paid.
 func (m *Mint) MintTokens(mintTokensRequest nut04.PostMintBolt11Request) (cashu.BlindedSignatures, error) {
-	mintQuote, err := m.GetMintQuoteState(mintTokensRequest.Quote)
+	m.mintQuoteMu.Lock()
+	defer m.mintQuoteMu.Unlock()
+
+	mintQuote, err := m.getMintQuoteState(mintTokensRequest.Quote)
 	if err != nil {
 		return nil, err
 	}
